@@ -23,7 +23,7 @@ package encoding
 //@   requires s != nil && wfItem(fixItem)
 //@   unfold wf_item(fixItem)
 //@   modifies fix.Value.*, fix.Group.items
-//@   call unmarshal#2: lemma wf_kv_intro(noKv)
+//@   call unmarshal#1: lemma wf_kv_intro(noKv)
 //@   loop 1:
 //@     invariant[C11] 0 <= i
 //@     decreases cnt - i
@@ -41,7 +41,6 @@ package encoding
 //@   terminates[C11]
 //@   requires wfSeq(msg)
 //@   modifies fix.Value.*, fix.Group.items
-//@   call unmarshal#2: lemma wf_kv_intro(noKv)
 //@   loop 1:
 //@     invariant[C11] 0 <= iter
 //@     decreases len(msg) - iter
